@@ -1,7 +1,48 @@
 import Driver.Proto
+import GbVerif.Model.Cache
 namespace Driver
+open GbVerif
 
-/-- C03 correspondence (stub) -/
-def checkC03 (l : Line) : Verdict := .bad s!"stream {l.stream} not implemented"
+/-- C03: warm cache vs cold cache vs interpreter over a history of block runs and bank switches (joined line:
+`o=` warm jit, `c=` cold jit, `n_o=` interpreter build); cache hit/miss against the key discipline of the cache model -/
+def checkC03 (l : Line) : Verdict := Id.run do
+  let warm := (l.outS "o").splitOn ";"
+  let cold := (l.outS "c").splitOn ";"
+  let interp := (l.outS "n_o").splitOn ";"
+  if warm.length != cold.length || warm.length != interp.length then return .bad "run counts differ between builds"
+  -- entries 32..39 are the trampolines located inside the switchable bank
+  let usesBankedSwitch := ((l.inS "hist").splitOn ",").any fun op =>
+    op.startsWith "g" && (parseNat (op.drop 1).toString) ≥ 32
+  let mut seen : List (Nat × Nat) := []      -- (key, bytes_translated) of every block translated so far (warm cache)
+  let mut k := 0
+  for w in warm do
+    let wf := parseNatList w
+    let cf := parseNatList (cold.getD k "")
+    let nf := parseNatList (interp.getD k "")
+    let st (xs : List Nat) := xs.take 7
+    if st nf != st wf || st nf != st cf then
+      let what := if st wf != st cf then "warm cache differs from a cache emptied before every block" else "recompiler differs from the interpreter"
+      -- the recorded finding: the block that just ran is one of the trampolines located INSIDE the switchable bank
+      -- (0x4300 + j*0x40), it switched banks mid-block, and only what the rest of that block computed (A, F, C) differs
+      let ip0 := wf.getD 7 0
+      let isBankedTrampoline := usesBankedSwitch && ip0 ≥ 0x4300 && ip0 < 0x4500 && (ip0 - 0x4300) % 0x40 == 0
+      let onlyAF := (st nf).drop 2 == (st wf).drop 2 && st wf == st cf   -- A, F, B/C: what the tail of that block computes
+      let tag := if isBankedTrampoline && onlyAF then " [mid-block bank switch from code in the switchable bank]" else ""
+      return .specDiff s!"run {k}: {what}{tag}: interp={st nf} warm={st wf} cold={st cf}"
+    -- cache model: key discipline
+    let ip0 := wf.getD 7 0; let bank0 := wf.getD 8 0; let h := wf.getD 9 0; let bt := wf.getD 10 0
+    if h != 2 then
+      let key := Cache.key (if ip0 < 0x4000 then 0 else bank0) ip0
+      match seen.lookup key with
+      | some bt' =>
+        if h != 1 then return .modelDiff s!"run {k}: model predicts a cache hit for bank {bank0} ip {ip0}, implementation missed"
+        if bt' != bt then return .modelDiff s!"run {k}: block for key {key} covers {bt} bytes now, {bt'} before"
+      | none =>
+        if h != 0 then return .modelDiff s!"run {k}: model predicts a miss for bank {bank0} ip {ip0}, implementation hit"
+        seen := (key, bt) :: seen
+      if cf.getD 9 0 != 0 then return .modelDiff s!"run {k}: emptied cache reported a hit"
+      if cf.getD 10 0 != bt then return .modelDiff s!"run {k}: cold translation covers {cf.getD 10 0} bytes, warm block {bt}"
+    k := k + 1
+  return .ok (seen.length > 2)
 
 end Driver
